@@ -141,4 +141,84 @@ theorem evloop : ∀ (cnt f j : Nat) (k : RecSt OSt), k.fault = none → k.obs.b
     rw [evalP_step k.obs (j : Int) _ v w hv hw (by omega)]
 end Loop
 
+
+section Base
+variable (oracle : Nat → Bool) (fuel cap total : Nat)
+
+theorem rec_sim0 (F index r : Nat) (stack : List Nat) (k : RecSt OSt) (hP : Pre k cap total r stack) :
+    Post (theta_chain_comput_rec obs [] oracle fuel (F + 1) (0 : Nat) index 0 stack.length total 0 0 0 0 k) k cap total
+      (rec cap total (F + 1) 0 index r stack).2 (rec cap total (F + 1) 0 index r stack).1 := by
+  have hk : theta_chain_comput_rec obs [] oracle fuel (F + 1) (0 : Nat) index 0 stack.length total 0 0 0 0 k = k := by
+    simp [theta_chain_comput_rec, RecSt.step, RecSt.live, obs, hP.kf, hP.kb]
+  rw [hk]
+  simp only [rec, if_true]
+  exact ⟨hP.kf, hP.kb, hP.rs, hP.cp, hP.tt, hP.p1, hP.p2, by simp⟩
+
+theorem rec_sim1 (F index r : Nat) (stack : List Nat) (k : RecSt OSt) (hP : Pre k cap total r stack)
+    (hi : index + 1 ≤ total) (hsf : stack.length ≤ fuel) (hsc : stack.length ≤ cap) :
+    Post (theta_chain_comput_rec obs [] oracle fuel (F + 1) (1 : Nat) index 0 stack.length total 0 0 0 0 k) k cap total
+      (rec cap total (F + 1) 1 index r stack).2 (rec cap total (F + 1) 1 index r stack).1 := by
+  simp only [theta_chain_comput_rec]
+  rw [step_live _ k hP.kf hP.kb]
+  rw [if_neg (by simp)]
+  rw [step_live _ k hP.kf hP.kb]
+  rw [if_pos (by simp)]
+  generalize hX : RecSt.step obs _ (RecSt.step obs _ (RecSt.step obs _ k)) = X
+  have hi0 : (0 : Int) ≤ (index : Int) := by omega
+  have hi1 : (index : Int) < (total : Int) := by omega
+  have hXe : X = { k with i := 0, obs := { k.obs with steps := k.obs.steps ++
+      [((index : Int), r, if index + 2 = total then 1 else if index + 1 = total then 2 else 0)] } } := by
+    rw [← hX]
+    by_cases h2 : (index : Int) = (total : Int) - 2
+    · have : index + 2 = total := by omega
+      have h2' := eq_true h2
+      simp [RecSt.step, RecSt.live, obs, hP.kf, hP.kb, EvKind.stepR, EvKind.loadR, ev, OSt.inb, OSt.size, hP.rs, hP.tt,
+        hP.r1, hP.r2, hi0, hi1, h2', this]
+    · have h2n : ¬ index + 2 = total := by omega
+      by_cases h1 : (index : Int) = (total : Int) - 1
+      · have : index + 1 = total := by omega
+        have h2' := eq_false h2
+        have h1' := eq_true h1
+        simp [RecSt.step, RecSt.live, obs, hP.kf, hP.kb, EvKind.stepR, EvKind.loadR, ev, OSt.inb, OSt.size, hP.rs, hP.tt,
+          hP.r1, hP.r2, hi0, hi1, h2', h1', this, h2n]
+      · have h1n : ¬ index + 1 = total := by omega
+        have h2' := eq_false h2
+        have h1' := eq_false h1
+        simp [RecSt.step, RecSt.live, obs, hP.kf, hP.kb, EvKind.stepR, EvKind.loadR, ev, OSt.inb, OSt.size, hP.rs, hP.tt,
+          hP.r1, hP.r2, hi0, hi1, h2', h1', h1n, h2n]
+  rw [hXe]
+  clear hX hXe
+  generalize hK : RecSt.mk _ _ _ = K
+  have hKf : K.fault = none := by rw [← hK]; exact hP.kf
+  have hKb : K.obs.bad = false := by rw [← hK]; exact hP.kb
+  rw [step_live _ K hKf hKb]
+  erw [evloop oracle fuel (1 : Nat) index stack.length total stack.length fuel 0 K hKf hKb (by rw [← hK]; rfl) (by simp)
+    (by rw [← hK]; simp only []; rw [hP.cp]; omega) hi0 (by rw [← hK]; simp only []; rw [hP.tt]; exact hi1)
+    (by
+      intro x _ hx
+      rw [← hK]
+      simp only []
+      rw [hP.p1 x (by omega), hP.p2 x (by omega)]
+      exact ⟨rfl, rfl⟩) hsf]
+  have hrec : rec cap total (F + 1) 1 index r stack =
+      ([.step index stack.length total r (if index + 2 = total then 1 else if index + 1 = total then 2 else 0)],
+        stack.map (· - 1)) := by simp [rec]
+  rw [hrec]
+  subst hK
+  refine ⟨hP.kf, ?_, ?_, ?_, ?_, ?_, ?_, ?_⟩
+  · simp [evalP, hP.kb]
+  · simp [evalP, hP.rs]
+  · simp [evalP, hP.cp]
+  · simp [evalP, hP.tt]
+  · intro i hi'
+    have hil : i < stack.length := by simpa using hi'
+    have h1 : (0 : Int) ≤ (i : Int) ∧ (i : Int) < 0 + (stack.length : Int) := by omega
+    simp [evalP, h1, hil, hP.p1 i hil]
+  · intro i hi'
+    have hil : i < stack.length := by simpa using hi'
+    have h1 : (0 : Int) ≤ (i : Int) ∧ (i : Int) < 0 + (stack.length : Int) := by omega
+    simp [evalP, h1, hil, hP.p2 i hil]
+  · simp [evalP, mStep]
+end Base
+
 end SqiProofs.SkelRecSim
